@@ -303,6 +303,7 @@ func (c c17RTRun) history(d *c17RT, pfxIdx int, pfx c17RTPrefix, reuse bool, S, 
 
 // TestVerifC17_rsa_roundtrip: key shares and sign shares through their encodings, fresh and reused values.
 func TestVerifC17_rsa_roundtrip(t *testing.T) {
+	c17DefaultConfigOnly(t)
 	r := verifmc.Start(t, "C17", "rsa_roundtrip")
 	defer r.Finish()
 	ov := verifmc.NewOrderedViolations(r)
